@@ -102,9 +102,11 @@ def params(prog, run):
     for c in per:
         nov = astq.kwarg(c, "noverlap")
         x = astq.expand(est, nov) if nov is not None else None
-        names = {n.id for n in ast.walk(x) if isinstance(n, ast.Name)} if x is not None else set()
-        ok = x is not None and {"nxseg", "pov"} <= names and isinstance(x, ast.BinOp) and isinstance(x.op, ast.Mult)
-        run.ob("R-param", est.qual, "pov->noverlap", ok, f"noverlap = `{astq.src(x) if x is not None else None}`",
+        from .. import symidx
+        from ..poly import P
+        v = symidx.SymEval(prog, est).ev(nov) if nov is not None else None
+        ok = v is not None and v == P.s("nxseg") * P.s("pov")
+        run.ob("R-param", est.qual, "pov->noverlap", ok, f"noverlap = `{astq.src(x) if x is not None else None}` = {v!r} (expected nxseg*pov)",
                witness=astq.src(x, 60) if x is not None else "missing", file=fe, node=c)
         nps = astq.kwarg(c, "nperseg")
         ok = nps is not None and _is_param(est, nps, "nxseg")
